@@ -301,6 +301,14 @@ def upown_gen(rng, tier):
         add(up, plan, q0=q0)
     for plan in UPOWN_H1:
         add("https", plan, alpn="h1")
+    # handshakes that FAIL ON THEIR OWN (certificate untrusted / wrong name / expired): N failed exchanges, Close;
+    # the connection dialled for each must be gone - at the client (socket count) and at the server (client's FIN)
+    for up in ("tls", "tls+pipeline", "https", "h3", "quic"):
+        for hs in ("untrusted", "name", "expired"):
+            out.append("o%d up=%s plan=%s hs=%s" % (n[0], up, ",".join(["hf"] * rng.randint(1, 3)), hs))
+            n[0] += 1
+    out.append("o%d up=https plan=hf,hf hs=untrusted alpn=h1" % n[0])
+    n[0] += 1
     reps = budget(tier, 60, 600)
     for _ in range(reps):
         up = rng.choice(UPS + ["udp", "udp"])
@@ -352,6 +360,8 @@ def upown_classify(line, res):
         c += "/eol"
     if f.get("alpn"):
         c += "/" + f["alpn"]
+    if f.get("hs"):
+        return c + "/handshake-fails:" + f["hs"]
     idle = any(p in ("ok", "tc") for p in plan)
     busy = any(p in ("mu", "tm") for p in plan)
     c += "/" + ("unused" if not plan else ("idle+inflight" if idle and busy else ("idle" if idle else "inflight")))
@@ -451,6 +461,12 @@ def startcfg_gen(rng, tier):
                    ("none", "badredis"), ("memmarker", "badredis")):
         add(["m", "u:quic", "c:%s!%s" % (ck, fl), "s:udp"])
     add(["m!inuse", "u:quic", "s:udp"])
+    # the cache tiers none / memory / redis / both (a fake redis in the child): close, and a failing LATER item
+    for ck in ("none", "mem", "redis", "memredis", "memredismarker"):
+        add(["m", "u:udp", "c:%s" % ck, "s:udp", "s:tcp"])
+        add(["u:quic", "c:%s" % ck, "s:udp", "s:%s!%s" % (rng.choice(SC_SRVS), rng.choice(["inuse", "proto"]))])
+    add(["c:memredis", "s:tls!certonly"])
+    add(["c:memredis!nomarker", "s:udp"])
     # (4) nothing wrong: start, close, nothing left (every listener kind, metrics, cache, socket-owning upstreams)
     add(["m", "u:udp", "u:quic", "u:h3", "d", "r", "c:memmarker"] + ["s:%s" % k for k in SC_SRVS])
     add(["u:udp", "s:udp"])
@@ -696,7 +712,9 @@ PROPS["C18"] = dict(
          "busy and end-of-life connections via a preset wire id; https over h2 and http/1.1; h3; quic), then Close, "
          "Close, in-flight exchanges, a new exchange on the upstream and on each leg of a udp upstream, sockets of "
          "the process (Opt.Control + /proc/self/fd) and connections still open at the server; compared with the "
-         "composite model (Net/ShutdownOwn.v); "
+         "composite model (Net/ShutdownOwn.v); TLS / QUIC handshakes that fail on their own (certificate untrusted / "
+         "wrong name / expired: step hf, hs=) on tls, tls+pipeline, https, h3, quic upstreams, garbage collection off, "
+         "the fake server waits for the client's FIN: no socket of a connection that never became usable is left; "
          "startcfg: configurations as item lists (metrics, 10 upstream kinds, domain sets, rules, cache, 8 listener "
          "kinds) with one fault from the catalogue of configuration errors (duplicate / missing tag, missing addr, "
          "unknown scheme / protocol, metrics registration failure, port in use, bad address, no / half / unreadable / "
@@ -704,7 +722,8 @@ PROPS["C18"] = dict(
          "file, bad redis url) at every kind, first in the list and behind components that already hold sockets or "
          "goroutines; one child process per case, run() three times: error reported, sockets / other fds / goroutines "
          "left over per run (garbage collection off so that unreachable sockets stay visible); a few through the real "
-         "binary (exit status); 'address in use' with the address held by ANOTHER INSTANCE of the router (a second "
+         "binary (exit status); the cache tiers none / memory / redis / both against a fake redis in the child (close and a "
+         "failing later item leave no connection to it); 'address in use' with the address held by ANOTHER INSTANCE of the router (a second "
          "run() in the process, the real binary twice) for the metrics endpoint and every listener kind incl. udp "
          "with threads unset / 1 / 2, with and without socket.so_reuseport; valid configurations closed while a "
          "client is connected / in the middle of a TLS handshake / of a request on each closable endpoint (metrics, "
